@@ -159,6 +159,34 @@ def check_props_file(pid, outdir):
     return rc == 0, thms, closed, sorted(set(assum)), out
 
 
+def run_coqchk(pid):
+    """Thorough tier: independent re-check of the compiled development behind props/<ID>.vo with
+    coqchk (cached per set of .vo files); returns a summary dict."""
+    vos = sorted(glob.glob(os.path.join(COQ, "*", "*.vo")))
+    h = hashlib.sha256()
+    for v in vos:
+        st = os.stat(v)
+        h.update(("%s %d %d\n" % (v, st.st_size, int(st.st_mtime))).encode())
+    key = h.hexdigest()[:16]
+    cdir = os.path.join(OUT, "coqchk")
+    os.makedirs(cdir, exist_ok=True)
+    cfile = os.path.join(cdir, "%s.%s.json" % (pid, key))
+    if os.path.exists(cfile):
+        d = json.load(open(cfile))
+        d["cached"] = True
+        return d
+    q = sum((["-Q", os.path.join(COQ, d), "Verif"] for d in COQ_DIRS), [])
+    t = time.time()
+    rc, out = run(["coqchk", "-silent", "-o"] + q + ["Verif." + pid], cwd=COQ, timeout=7200)
+    m = re.search(r"\* Axioms:\s*(.*?)\n\s*\n\s*\* Constants/Inductives relying on type-in-type", out, re.S)
+    axioms = (m.group(1).strip() if m else "?")
+    d = {"ran": True, "ok": rc == 0, "axioms": axioms, "seconds": round(time.time() - t, 1), "cached": False,
+         "tail": out[-400:] if rc != 0 else ""}
+    if rc == 0:
+        json.dump(d, open(cfile, "w"))
+    return d
+
+
 def eval_shards(outdir, timeout_each=1800):
     shards = sorted(glob.glob(os.path.join(outdir, "cases_*.v")))
 
@@ -296,6 +324,11 @@ def main():
         thms = theorem_names(os.path.join(COQ, "props", pid + ".v"))
     obligations = len(thms)
     discharged = obligations if okp else 0
+    coqchk = None
+    if tier == "thorough" and okp and not replay_path and not os.environ.get("VERIF_NO_COQCHK"):
+        coqchk = run_coqchk(pid)
+        if not coqchk.get("ok"):
+            broken.append(("proof", "coqchk rejects the compiled development behind props/%s.vo" % pid, coqchk.get("tail", "")))
 
     if replay_path:
         rp = json.load(open(replay_path))
@@ -451,6 +484,7 @@ def main():
         "search_oracle_evaluations": searched,
         "exhaustive": False,
         "phase_end_s": phases,
+        "coqchk": coqchk,
     }
     ev = {"property_id": pid, "tier": tier, "seed": seed, "level": "proof", "coverage": cov,
           "assumptions": cfg.get("assumptions", []), "wall_s": round(wall, 2), "violations": violations}
